@@ -235,7 +235,7 @@ func init() {
 		Rule: "generated CRS trees (1..3 rules files, assembly files with includes/definitions/stored names, test files, setup example) with ~25 decoys (near-miss extensions and names such as 932100.ra.bak, 9321000.yaml, 920110 without extension, *.conf~, notes.example.txt, README files containing marker text, and a sibling directory outside the root with rules/assembly/test files) x 33 inspecting command lines (generate file/stdin/missing, compare single/--all/github, format --check single/--all/github, renumber-tests --check single/--all/github, version, completion for 4 shells, help, failing invocations, --check and single-target runs on missing targets and on decoys that only resemble a target) and 8 rewriting ones (format single/include/--all, update single/--all, renumber-tests single/--all, update-copyright) x -d at the root or 1..2 levels below. Every run is traced with strace -f (file-related and attribute system calls). " +
 			"Oracle: inspecting commands perform no successful write-class system call (open for writing/creating, unlink, rename, mkdir, chmod, truncate, link ...; /dev/null excepted) and leave the sandbox snapshot (root plus outside sibling) identical; rewriting commands change only paths allowed by a path model written from the statement, perform no write-class call outside the root or on a pre-existing non-target. Non-trivial = every traced run; distinct by (tree, command, -d).",
 		Cases: func(env *core.Env, rng *rand.Rand) []core.Case {
-			trees := env.N(6, 80)
+			trees := env.N(10, 80)
 			var cs []core.Case
 			dirs := []string{"", "", "rules", "regex-assembly/include", "tests/regression"}
 			for i := 0; i < trees; i++ {
